@@ -181,10 +181,16 @@ def check_cluster_dimensionality(rec, name, system, params, clusters, cleaned_in
                 rec.judged(name)
                 rec.violation(name, "C13|exception|%s" % type(e).__name__, "Cluster.get_dimensionality raised %r" % (e,), wit); continue
             try:
-                ref = matid.geometry.get_dimensionality(c.get_atoms(), thr, radii=radii_arr[idx])
+                # the cluster's atoms are taken from the analysed structure by index, NOT through Cluster.get_atoms():
+                # a reference that shares the cluster's own atom/radius ordering cannot see a mismatch between them
+                ref = matid.geometry.get_dimensionality(system[idx], thr, radii=radii_arr[idx])
             except Exception as e:
                 rec.ood(name); rec.note("C13_reference_raised:%s" % type(e).__name__); continue
         rec.judged(name)
+        if idx != sorted(idx):
+            rec.note("C13_clusters_with_unsorted_index_list")
+            if len(set(int(z) for z in numbers[idx])) > 1:
+                rec.note("C13_clusters_with_unsorted_index_list_and_several_species")
         changed = bool(cleaned_info and cleaned_info.get(id(c)))
         if changed:
             rec.note("C13_clusters_with_atoms_removed_after_tracking")
